@@ -51,14 +51,17 @@ def _import_bound(spec: project.Spec, mid: int, items: List[project.Item], dump:
     return out
 
 
-def _class_items(items: List[project.Item]) -> Dict[str, project.Item]:
+def _class_items(items: List[project.Item], hist: Optional[Dict[str, List[project.Item]]] = None) -> Dict[str, project.Item]:
+    """last definition of each name in a namespace (`hist`, if given, collects all of them in order)"""
     out = {}
     for it in items:
         if it.kind in ('block', 'dup', 'main'):
             if it.kind != 'main':
-                out.update(_class_items(it.members))
+                out.update(_class_items(it.members, hist))
         elif it.kind in ('class', 'func', 'var'):
             out[it.name] = it
+            if hist is not None:
+                hist.setdefault(it.name, []).append(it)
     return out
 
 
@@ -68,7 +71,8 @@ def _compare_ns(res: core.Res, spec: project.Spec, label: str, where: str, rt_ns
     K = model.DocumentableKind
     res.c('namespaces_compared')
     bound = _import_bound(spec, mid, items, dump)
-    specitems = _class_items(items)
+    hist: Dict[str, List[project.Item]] = {}
+    specitems = _class_items(items, hist)
     w = {'project': label, 'namespace': where}
     rt_names = {n for n, i in rt_ns.items()
                 if not (n.startswith('__') and n.endswith('__')) and n not in PRELUDE_NAMES and n not in bound and i.get('kind') != 'module'}
@@ -128,7 +132,12 @@ def _compare_ns(res: core.Res, spec: project.Spec, label: str, where: str, rt_ns
             it = specitems.get(n)
             if it is not None and it.kind == 'var':
                 res.c('docstrings_compared')
-                if (it.doc or None) != (o.docstring or None):
+                earlier_doc = any(h.doc for h in hist.get(n, [])[:-1])
+                if it.doc is None and earlier_doc:
+                    # a variable rebound without a docstring of its own: attribute docstrings are a documentation convention,
+                    # the interpreter reports nothing for them, so keeping the earlier one is not judged
+                    res.c('rebound_variable_docstring_not_judged')
+                elif (it.doc or None) != (o.docstring or None):
                     res.v('C03:attribute-docstring', f'{label}: {where}.{n}: written {it.doc!r}, pydoctor has {o.docstring!r}', name=n, **w)
                 if it.ann is None and isinstance(o, model.Attribute) and o.annotation is not None:
                     res.c('types_compared')
